@@ -11,6 +11,7 @@ import (
 	"bytes"
 	"encoding/json"
 	"fmt"
+	"github.com/freeconf/yang/source"
 	"io"
 	"os"
 	"os/exec"
@@ -132,7 +133,12 @@ func runOp(cs *clientState, op *Op) (res string) {
 	switch op.Kind {
 	case "load-set", "load-m":
 		tl := time.Now()
-		m, err := parser.LoadModule(opener(op.Files, op.Main), op.Main)
+		op0 := opener(op.Files, op.Main)
+		if op.Cfg%2 == 1 {
+			// through source.Cached with a cache of this load's own (an in-memory Cacher)
+			op0 = source.Cached(op0, &memCache{m: map[string][]byte{}})
+		}
+		m, err := parser.LoadModule(op0, op.Main)
 		if err != nil {
 			return "error: " + err.Error()
 		}
@@ -547,4 +553,24 @@ func tailN(s string, n int) string {
 		return s[:n]
 	}
 	return s
+}
+
+// memCache is a source.Cacher held in memory; every load gets a fresh one.
+type memCache struct{ m map[string][]byte }
+
+func (c *memCache) WriteToCache(id, ext string, r io.Reader) error {
+	b, err := io.ReadAll(r)
+	if err != nil {
+		return err
+	}
+	c.m[id+ext] = b
+	return nil
+}
+
+func (c *memCache) ReadFromCache(id, ext string) (io.Reader, error) {
+	b, ok := c.m[id+ext]
+	if !ok {
+		return nil, nil
+	}
+	return bytes.NewReader(b), nil
 }
